@@ -312,6 +312,11 @@ class BooleanFormula(BodyFormula):
             assert(step in range(0, ctx.horizon + 1))
             lhs = self.__lhs.translate(ctx, step)
             rhs = self.__rhs.translate(ctx, step)
+            if data.literal is not None:
+                # the formula has been reached again (and translated) while
+                # translating its operands: iteration over a path expression
+                # that does not consume a state
+                return
             lit = data.add_literal(ctx.backend)
             if self.__operator != "<>":
                 if self.__operator == "&":
